@@ -34,7 +34,8 @@ META = {
         "syntax trees, CFG path counts and the installed library sources (parsed, never imported). "
         "(R1) SortFootnotes runs before and UnreferencedFootnotesDetector/CollectFootnotes run after docutils' Footnotes "
         "transform (priorities evaluated symbolically against docutils' source); every transform is registered exactly once "
-        "per front end and Sphinx's own unreferenced-footnote detector is removed. "
+        "per front end and Sphinx's own unreferenced-footnote detector is removed on every path of setup_sphinx, except paths on "
+        "which a membership test on the same registry list shows it is not registered. "
         "(R2) The reference and the definition renderer classify the same, never re-bound label with the same digit "
         "predicate (directly, through a local alias or a value-only helper; several correlated branches are allowed) and on "
         "every path of each side feed the matching docutils registries (manual: Text/label child + note_footnote; auto: "
@@ -50,7 +51,8 @@ META = {
         "(R5) footnote_plugin runs with inline=False, move_to_end=False, always_match_refs=True (defaults read from the "
         "plugin source), and the `[text]{attrs}` span rule of attrs_plugin is inserted behind footnote_ref in markdown-it's "
         "inline chain (chain and insertion anchors read from markdown_it/parser_inline.py and the two plugin sources). "
-        "(R6) The duplicate test consults the footnote registries (both of them), not the document-wide name/id tables, "
+        "(R6) The duplicate test (one membership, an `or` of memberships, any() of either, also over itertools.chain) consults "
+        "the footnote registries (both of them), not the document-wide name/id tables, "
         "compares labels verbatim as they are stored (no case/whitespace/character folding on either side), and "
         "everything it reads (registry entry, name) is stored before the footnote body is rendered, where a nested duplicate "
         "can occur. "
@@ -61,8 +63,9 @@ META = {
         "(R9) The footnote transition is attached only under a guard that looks at the document's children (not first) and "
         "under a test for an existing final transition (not adjacent) whose look-out goes down the tree (advancing loop, "
         "recursion or docutils traversal), because docutils later hoists a transition that ends the last section. "
-        "(R10) SortFootnotes ranks a footnote by the position of its FIRST reference (list.index / first-wins table, never a "
-        "last-wins table over autofootnote_refs). "
+        "(R10) SortFootnotes ranks a footnote by the position of its FIRST reference (list.index, or a first-wins table "
+        "- setdefault / `not in` guarded store / reversed fill - over autofootnote_refs or over the local list of their "
+        "labels; never a last-wins table). "
         "(R11) UnreferencedFootnotesDetector examines both registries and reports every definition without back-references "
         "exactly once: one report per iteration on the unreferenced path, none on the referenced path, no early exit, and a "
         "deferred collection keeps one entry per footnote and is reported once per entry."
@@ -480,7 +483,18 @@ def r1_priorities_and_registration(corpus: Corpus, rep: Report, tier: str):
     if "UnreferencedFootnotesDetector" not in sph.classes:
         rep.listed("C11.R1", key, setup.site(), "installed Sphinx has no detector of its own")
     else:
-        c_rm = ev.count("remove", ENTRY)
+        # paths on which Sphinx's class is known not to be registered have nothing to remove
+        absent = []
+        for n in setup.local_nodes():
+            if isinstance(n, ast.If):
+                for edge in ("T", "F"):
+                    for atom, pol in facts(n.test, edge == "T"):
+                        if isinstance(atom, ast.Compare) and len(atom.ops) == 1 and isinstance(atom.ops[0], (ast.In, ast.NotIn)) and setup.module.resolve(dotted(atom.left) or "") == sphinx_det:
+                            same_list = any(isinstance(r.func, ast.Attribute) and unparse(r.func.value) == unparse(atom.comparators[0]) for r in ev.nodes("remove"))
+                            registered = pol if isinstance(atom.ops[0], ast.In) else not pol
+                            if same_list and not registered:
+                                absent.append((edge, n))
+        c_rm = ev.paths("remove", ENTRY, EXIT, avoid=absent) if absent else ev.count("remove", ENTRY)
         if c_rm == {1}:
             rep.ok("C11.R1", key, setup.module.site(ev.nodes("remove")[0]))
         else:
@@ -1087,9 +1101,20 @@ def _is_label_form(fi: FunctionInfo, e: ast.expr, depth: int = 0) -> bool:
     return False
 
 
+def _is_member_cmp(fi: FunctionInfo, e: ast.AST, ops=(ast.In,)) -> bool:
+    return isinstance(e, ast.Compare) and len(e.ops) == 1 and isinstance(e.ops[0], ops) and (_is_label_form(fi, e.left) or (isinstance(e.ops[0], ast.Eq) and _is_label_form(fi, e.comparators[0])))
+
+
 def _membership_polarity(atom: ast.expr, pol: bool, fi: FunctionInfo):
     """If ``atom`` (holding with polarity ``pol``) decides 'label is a member of C': (is_member, compare node)."""
     cmp_ = None
+    # `label in A or label in B` == label in A + B (all operands positive memberships)
+    if isinstance(atom, ast.BoolOp) and isinstance(atom.op, ast.Or) and all(_is_member_cmp(fi, v) for v in atom.values):
+        return pol, atom
+    if isinstance(atom, ast.Call) and dotted(atom.func) == "any" and len(atom.args) == 1 and isinstance(atom.args[0], (ast.GeneratorExp, ast.ListComp)):
+        e0 = atom.args[0].elt
+        if isinstance(e0, ast.BoolOp) and isinstance(e0.op, ast.Or) and all(_is_member_cmp(fi, v, (ast.In, ast.Eq)) for v in e0.values):
+            return pol, e0
     if isinstance(atom, ast.Compare) and len(atom.ops) == 1 and isinstance(atom.ops[0], (ast.In, ast.NotIn)) and _is_label_form(fi, atom.left):
         cmp_ = atom
     elif isinstance(atom, ast.Call) and dotted(atom.func) == "any" and len(atom.args) == 1 and isinstance(atom.args[0], (ast.GeneratorExp, ast.ListComp)):
@@ -2073,6 +2098,41 @@ def _refs_in_document_order(fi: FunctionInfo, it: ast.expr) -> str | None:
     return None
 
 
+def _order_and_kind(fi: FunctionInfo, it: ast.expr):
+    """(direction, 'refs' | 'labels'): ``it`` runs over the references themselves, or over a local list of their
+    labels (``[n["refname"] for n in <refs> if ...]``) - the latter may be defined in an enclosing function."""
+    d = _refs_in_document_order(fi, it)
+    if d is not None:
+        return d, "refs"
+    direction = "fwd"
+    while True:
+        if isinstance(it, ast.Call) and dotted(it.func) in ("list", "tuple", "iter") and len(it.args) == 1:
+            it = it.args[0]
+        elif isinstance(it, ast.Call) and dotted(it.func) == "enumerate" and it.args:
+            it = it.args[0]
+        elif isinstance(it, ast.Call) and dotted(it.func) == "reversed" and len(it.args) == 1:
+            direction = "rev" if direction == "fwd" else "fwd"
+            it = it.args[0]
+        else:
+            break
+    v, f = it, fi
+    if isinstance(it, ast.Name):
+        b = _binding(fi, it.id)
+        if b is None:
+            return None
+        f, v, _ = b
+    if isinstance(v, ast.ListComp) and len(v.generators) == 1 and isinstance(v.generators[0].target, ast.Name) and _is_refname_of(v.elt, v.generators[0].target.id):
+        inner = _refs_in_document_order(f, v.generators[0].iter)
+        if inner is not None:
+            return ("fwd" if inner == direction else "rev"), "labels"
+    return None
+
+
+def _label_of_element(e: ast.expr, var: str, kind: str) -> bool:
+    """``e`` is the label of the sequence element ``var``"""
+    return _is_refname_of(e, var) if kind == "refs" else _is_name(e, var)
+
+
 def _is_refname_of(e: ast.expr, var: str) -> bool:
     return isinstance(e, ast.Subscript) and _is_name(e.value, var) and isinstance(e.slice, ast.Constant) and e.slice.value == "refname"
 
@@ -2114,10 +2174,11 @@ def _occurrence_picked(kf: FunctionInfo, e: ast.expr) -> tuple[str, ast.AST]:
         f, v, _ = b
         if isinstance(v, ast.DictComp) and len(v.generators) == 1:
             g = v.generators[0]
-            d = _refs_in_document_order(f, g.iter)
+            ok_ = _order_and_kind(f, g.iter)
             idx = _enumerate_index_names([g])
-            if d is None or not (isinstance(v.value, ast.Name) and v.value.id in idx and isinstance(g.target, ast.Tuple) and len(g.target.elts) == 2 and isinstance(g.target.elts[1], ast.Name) and _is_refname_of(v.key, g.target.elts[1].id)):
+            if ok_ is None or not (isinstance(v.value, ast.Name) and v.value.id in idx and isinstance(g.target, ast.Tuple) and len(g.target.elts) == 2 and isinstance(g.target.elts[1], ast.Name) and _label_of_element(v.key, g.target.elts[1].id, ok_[1])):
                 raise Unsupported(f"{f.module.site(v)}: rank table `{short(v, 60)}` not understood")
+            d = ok_[0]
             # a later item overwrites an earlier one with the same key
             return ("last" if d == "fwd" else "first"), v
         if (isinstance(v, ast.Dict) and not v.keys) or (isinstance(v, ast.Call) and dotted(v.func) == "dict" and not v.args and not v.keywords):
@@ -2131,9 +2192,19 @@ def _occurrence_picked(kf: FunctionInfo, e: ast.expr) -> tuple[str, ast.AST]:
                 raise Unsupported(f"{f.qualname}: rank table `{cont.id}` has {len(stores)} writers")
             st = stores[0]
             loop = next((a for a in ancestors(st) if isinstance(a, ast.For)), None)
-            d = _refs_in_document_order(f, loop.iter) if loop is not None else None
-            if d is None:
-                raise Unsupported(f"{f.module.site(st)}: rank table is not filled in a loop over document.autofootnote_refs")
+            ok_ = _order_and_kind(f, loop.iter) if loop is not None else None
+            if ok_ is None:
+                raise Unsupported(f"{f.module.site(st)}: rank table is not filled in a loop over document.autofootnote_refs (or the list of their labels)")
+            d, kind_ = ok_
+            idx = _enumerate_index_names([loop])
+            if isinstance(st, ast.Call) and st.func.attr == "setdefault" and len(st.args) == 2:
+                k_, v_ = st.args
+            elif isinstance(st, ast.Assign) and len(st.targets) == 1:
+                k_, v_ = st.targets[0].slice, st.value
+            else:
+                raise Unsupported(f"{f.module.site(st)}: rank table writer not understood")
+            if not (isinstance(loop.target, ast.Tuple) and len(loop.target.elts) == 2 and isinstance(loop.target.elts[1], ast.Name) and _label_of_element(k_, loop.target.elts[1].id, kind_) and isinstance(v_, ast.Name) and v_.id in idx):
+                raise Unsupported(f"{f.module.site(st)}: rank table entry `{short(st, 50)}` is not label -> enumerate() index")
             if isinstance(st, ast.Call) and st.func.attr == "setdefault":
                 keeps_first = True
             elif isinstance(st, ast.Assign):
@@ -2454,6 +2525,11 @@ def mutants(corpus: Corpus):
     su = xm.func("setup_sphinx")
     st = find_stmt(su, lambda n: isinstance(n, ast.Expr) and isinstance(n.value, ast.Call) and isinstance(n.value.func, ast.Attribute) and n.value.func.attr == "remove" and "Footnote" in unparse(n))
     add("c11-sphinx-detector-not-removed", "C11.R1", xm, st, "pass", "removes sphinx.transforms")
+    if st is not None:
+        # a registration guard with the wrong polarity: removal only when there is nothing to remove
+        rc_ = st.value
+        si_ = " " * st.col_offset
+        add("c11-sphinx-detector-removed-only-when-absent", "C11.R1", xm, st, f"if {_seg(xm, rc_.args[0])} not in {_seg(xm, rc_.func.value)}:\n{si_}    {_seg(xm, st)}", "removes sphinx.transforms")
     st = find_stmt(su, lambda n: isinstance(n, ast.Expr) and isinstance(n.value, ast.Call) and isinstance(n.value.func, ast.Attribute) and n.value.func.attr == "add_transform")
     if st is not None:
         add("c11-sphinx-detector-only-with-parser", "C11.R1", xm, st, "if load_parser:\n        " + _seg(xm, st), "registers UnreferencedFootnotesDetector")
@@ -2672,6 +2748,10 @@ def mutants(corpus: Corpus):
         loop_txt = f"{tbl}: dict = {{}}\n{ind}for _i, {v} in enumerate({_seg(tm, g.iter)}):\n{ind}    " + (f"if {' and '.join(_seg(tm, c) for c in g.ifs)}:\n{ind}        " if g.ifs else "") + f"{tbl}[{_seg(tm, lc.elt)}] = _i"
         out.append(Mutant("c11-rank-by-last-reference-loop", "C11.R10", tm.rel, splice(src, lc_stmt, loop_txt), expect="rank of a referenced footnote"))
         out.append(Mutant("c11-rank-from-reversed-references", "C11.R10", tm.rel, splice(tm.src, g.iter, f"reversed({_seg(tm, g.iter)})"), expect="rank of a referenced footnote"))
+        # index table over the label list, later entries overwrite earlier ones (last reference wins)
+        tbl2 = f"_rank_of: dict = {{}}\n{ind}for _i, _name in enumerate({tbl}):\n{ind}    _rank_of[_name] = _i"
+        src2 = splice(tm.src, idx, f"_rank_of[{_seg(tm, idx.args[0])}]")
+        out.append(Mutant("c11-rank-table-over-labels-last-wins", "C11.R10", tm.rel, splice(src2, lc_stmt, _seg(tm, lc_stmt) + f"\n{ind}" + tbl2), expect="rank of a referenced footnote"))
     else:
         out.append(("c11-rank-by-last-reference-dictcomp", "label list / .index() lookup of SortFootnotes not found"))
     # collector: a definition skipped while gathering (class of seed out-c03/2 on the collector side)
